@@ -79,6 +79,11 @@ ROUTES = [
     ('socks4-ok', 'ok.test', 1003, True), ('socks4-no', 'no.test', 1003, False), ('socks4-close', 'close.test', 1003, False), ('socks4-garbage', 'garbage.test', 1003, False),
     ('denied', 'ok.test', 1004, False), ('no-rule', 'ok.test', 1999, False),
     ('http-upstream-down', 'ok.test', 1005, False), ('socks5-upstream-down', 'ok.test', 1006, False),
+    # replies of the upstream in other spellings / with other codes
+    ('http-ok-noreason', 'status-noreason.test', 1001, True), ('http-ok-http10', 'status-http10.test', 1001, True), ('http-ok-longreason', 'status-longreason.test', 1001, True),
+    ('socks4-cd-0', 'cd-0.test', 1003, False), ('socks4-cd-1', 'cd-1.test', 1003, False), ('socks4-cd-89', 'cd-89.test', 1003, False), ('socks4-cd-92', 'cd-92.test', 1003, False),
+    ('socks4-cd-255', 'cd-255.test', 1003, False), ('socks4-cd-90', 'cd-90.test', 1003, True),
+    ('socks5-v4reply-90', 'v4reply-90.test', 1002, False), ('socks5-v4reply-0', 'v4reply-0.test', 1002, False),
 ] + [(f'http-no-wordy-{n}', f'wordy-{n}.test', 1001, False) for n in (1, 100, 200, 300, 350, 400, 450, 500, 1000, 2000, 4000, 8000, 16000, 40000)]
 CLIENTS = ['http', 'socks5', 'socks4']
 
@@ -240,6 +245,22 @@ def s4auth():
         return 'nothing', None, True, r
     return 'failure', (None if len(r) == 8 and not extra else f'reply {r.hex()} + {extra.hex()}'), how in ('eof', 'reset'), r
 special('socks4-auth-required-unknown-id', s4auth, True)
+def s4cmd(cmd):
+    """a SOCKS4 request with another command than CONNECT: SOCKS4 has BIND (2) and nothing else"""
+    def f():
+        s = socket.create_connection(('127.0.0.1', sp), timeout=5)
+        s.sendall(bytes([4, cmd]) + struct.pack('>H', echo4.port) + socket.inet_aton('127.0.0.1') + b'id\0')
+        r = recv_exact(s, 8, 3)
+        extra, how = recv_until_eof(s, 3)
+        s.close()
+        if len(r) == 8 and r[1] == 90:
+            return 'established', None, False, r
+        if not r:
+            return 'nothing', None, True, r
+        return 'failure', (None if len(r) == 8 and r[0] == 0 and not extra else f'reply {r.hex()} + {extra.hex()}'), how in ('eof', 'reset'), r
+    return f
+for cmd in (0, 3, 4, 255):
+    special(f'socks4-cmd-{cmd}', s4cmd(cmd), True)
 def http_bad(extra_headers, target=None):
     def f():
         s = socket.create_connection(('127.0.0.1', hp), timeout=5)
